@@ -62,6 +62,15 @@ def Dflt.isNone : Dflt → Bool
   | .none => true
   | _ => false
 
+def Dflt.isFactorySelf : Dflt → Bool
+  | .factorySelf _ => true
+  | _ => false
+
+/-- a factory of either sort -/
+def Dflt.isFactory : Dflt → Bool
+  | .factory _ | .factorySelf _ => true
+  | _ => false
+
 /-! ## Logical models -/
 
 /-- Default of a logical field: nothing, a value, or a zero-argument factory. -/
@@ -251,7 +260,7 @@ def dcOutField (f : DField) : OutField :=
 def dataclassShape (d : Decl) : Except Unsupported Shape :=
   let fs := d.fields
   let ini := fs.filter dcInit
-  if fs.any (fun f => match f.default with | .factorySelf _ => true | _ => false) then
+  if fs.any (fun f => f.default.isFactorySelf) then
     .error (.declaration "dataclasses have no factory taking self")
   else if fs.any (fun f => f.pseudo == .classVar && f.kwOnly) then
     .error (.declaration "field is a ClassVar but specifies kw_only")
@@ -289,7 +298,7 @@ def namedTupleShape (d : Decl) : Except Unsupported Shape :=
   let fs := d.fields
   if fs.any (fun f => startsWithUnderscore f.name) then
     .error (.declaration "NamedTuple field names cannot start with an underscore")
-  else if fs.any (fun f => match f.default with | .factory _ | .factorySelf _ => true | _ => false) then
+  else if fs.any (fun f => f.default.isFactory) then
     .error (.declaration "NamedTuple has no default factories")
   else if !defaultsTrailing (fs.map (fun f => !f.default.isNone)) then
     .error (.declaration "non-default namedtuple field cannot follow default field")
@@ -389,7 +398,7 @@ def pydanticShape (d : Decl) : Except Unsupported Shape :=
   let regular := fs.filter (fun f => f.cat == .regular)
   let computed := fs.filter (fun f => f.cat == .computed)
   let priv := fs.filter (fun f => f.cat == .priv)
-  if fs.any (fun f => match f.default with | .factorySelf _ => true | _ => false) then
+  if fs.any (fun f => f.default.isFactorySelf) then
     .error (.declaration "pydantic has no factory taking self")
   else if fs.any (fun f => f.cat != .priv && startsWithUnderscore f.name) then
     .error (.declaration "a name with a leading underscore declares a private attribute, not a field")
@@ -497,7 +506,7 @@ def sqlalchemyShape (d : Decl) : Except Unsupported Shape :=
     .error (.declaration "mapper could not assemble any primary key columns")
   else if cols.any (fun f => f.ty.isModel) then
     .error (.declaration "a nested model needs a foreign key column and a relationship")
-  else if cols.any (fun f => match f.default with | .factorySelf _ => true | _ => false) then
+  else if cols.any (fun f => f.default.isFactorySelf) then
     .error (.declaration "SQLAlchemy has no factory taking self")
   else if cols.any (fun f => f.pk && f.autoinc == .yes && !f.ty.isNumericColumn) then
     .error (.declaration "column type is not compatible with autoincrement=True")
